@@ -16,6 +16,8 @@ SSP = "sdk/include/opentelemetry/sdk/trace/simple_processor.h"
 SLP = "sdk/src/logs/simple_log_record_processor.cc"
 PR = "sdk/src/metrics/export/periodic_exporting_metric_reader.cc"
 MSP = "sdk/include/opentelemetry/sdk/trace/multi_span_processor.h"
+MLP = "sdk/src/logs/multi_log_record_processor.cc"
+MC = "sdk/src/metrics/meter_context.cc"
 
 # (name, property, harness, extra args, file, old, new, expected signature regex)
 M = [
@@ -86,6 +88,33 @@ M = [
     ("msp_flush_or", "C02", "procs_c02", [], MSP, "      result &= processor->ForceFlush(timeout);", "      result |= processor->ForceFlush(timeout);", r"C02:provider-flush"),
     ("reader_ticket_on_cancel", "C02", "reader_c02", [], PR, "  while (exported.load(std::memory_order_acquire) && notify_force_flush > notified_sequence)", "  while (notify_force_flush > notified_sequence)",
      r"C02:reader-flush-without-export"),
+    # --- gaps named by the coverage review (docs/gaps/gaps_A.md) ---
+    ("bsp_retry_failed_export", "C01", "batch_c01_x", [], BSP,
+     "    exporter_->Export(nostd::span<std::unique_ptr<Recordable>>(spans_arr.data(), spans_arr.size()));\n",
+     "    if (exporter_->Export(nostd::span<std::unique_ptr<Recordable>>(spans_arr.data(), spans_arr.size())) ==\n        sdk::common::ExportResult::kFailure)\n    {\n      exporter_->Export(nostd::span<std::unique_ptr<Recordable>>(spans_arr.data(), spans_arr.size()));\n    }\n",
+     r"C01:duplicate"),
+    ("blp_wait_for_room", "C01", "batch_c01", [], BLP,
+     "  if (buffer_.Add(std::unique_ptr<Recordable>(record.release())) == false)\n  {\n    return;\n  }",
+     "  if (buffer_.Add(std::unique_ptr<Recordable>(record.release())) == false)\n  {\n    std::unique_lock<std::mutex> lk(synchronization_data_->force_flush_cv_m);\n    synchronization_data_->force_flush_cv.wait_for(lk, std::chrono::milliseconds(10));\n    return;\n  }",
+     r"C01:producer-waited"),
+    ("bsp_ack_ticket_read_after_export", "C01", "batch_c01", [], BSP,
+     "    if (num_records_to_export == num_records_queued)\n    {\n      NotifyCompletion(notify_force_flush, exporter_, synchronization_data_);\n    }",
+     "    if (num_records_to_export == num_records_queued)\n    {\n      NotifyCompletion(synchronization_data_->force_flush_pending_sequence.load(std::memory_order_acquire),\n                       exporter_, synchronization_data_);\n    }",
+     r"C01:lost:between-flushes"),
+    ("bsp_shutdown_timed_detach", "C02", "batch_c02", [], BSP,
+     "    worker_thread_.join();\n  }\n\n  GetWaitAdjustedTime(timeout, start_time);",
+     "    if (timeout < std::chrono::seconds(1))\n    {\n      worker_thread_.detach();\n    }\n    else\n    {\n      worker_thread_.join();\n    }\n  }\n\n  GetWaitAdjustedTime(timeout, start_time);",
+     r"C02:"),
+    ("msp_flush_last_wins", "C02", "procs_c02", [], MSP, "      result &= processor->ForceFlush(timeout);", "      result = processor->ForceFlush(timeout);", r"C02:provider-flush"),
+    ("mlp_flush_last_wins", "C02", "procs_c02", [], MLP,
+     "    if (!processor->ForceFlush(std::chrono::duration_cast<std::chrono::microseconds>(timeout_ns)))\n    {\n      result = false;\n    }",
+     "    result = processor->ForceFlush(std::chrono::duration_cast<std::chrono::microseconds>(timeout_ns));", r"C02:provider-flush"),
+    ("meterctx_flush_last_wins", "C02", "meterctx_c02", [], MC,
+     "    if (!std::static_pointer_cast<MetricCollector>(collector)->ForceFlush(\n            std::chrono::duration_cast<std::chrono::microseconds>(time_remaining)))\n    {\n      result = false;\n    }",
+     "    result = std::static_pointer_cast<MetricCollector>(collector)->ForceFlush(\n        std::chrono::duration_cast<std::chrono::microseconds>(time_remaining));", r"C02:meter:flush"),
+    ("reader_exporter_flush_before_wait", "C02", "reader_c02", [], PR,
+     "  bool result = false;\n  while (!result && timeout_steady > std::chrono::steady_clock::duration::zero())",
+     "  bool flushed = exporter_->ForceFlush(timeout);\n  bool result  = false;\n  while (!result && timeout_steady > std::chrono::steady_clock::duration::zero())", None),
     ("reader_ticket_after_collect", "C02", "reader_c02", [], PR,
      "  std::uint64_t notify_force_flush = force_flush_pending_sequence_.load(std::memory_order_acquire);\n  std::unique_ptr<std::thread> task_thread;",
      "  std::uint64_t notify_force_flush = 0;\n  std::unique_ptr<std::thread> task_thread;", None),
@@ -99,6 +128,8 @@ def _fix(name, file, marker_old, insert_after, new_read):
 _TICKET = {
     "bsp_ticket_after_snapshot": (BSP, "    const size_t num_records_queued = buffer_.size();\n",
                                   "    const size_t num_records_queued = buffer_.size();\n    notify_force_flush =\n        synchronization_data_->force_flush_pending_sequence.load(std::memory_order_acquire);\n", r"C02:flush-incomplete"),
+    "reader_exporter_flush_before_wait": (PR, "      result =\n          exporter_->ForceFlush(std::chrono::duration_cast<std::chrono::microseconds>(timeout));\n",
+                                          "      result = flushed;\n", r"C02:reader-flush-incomplete:exporter-flushed-before-data"),
     "reader_ticket_after_collect": (PR, "  if (task_thread && task_thread->joinable())\n  {\n    task_thread->join();\n  }\n",
                                     "  if (task_thread && task_thread->joinable())\n  {\n    task_thread->join();\n  }\n  notify_force_flush = force_flush_pending_sequence_.load(std::memory_order_acquire);\n", r"C02:reader-flush"),
 }
